@@ -3543,6 +3543,10 @@ def operator_pow(a, b):
     ):
 
         def operator_pow_impl(a, b):
+            # the Literal branches above are only reached when Numba types the
+            # exponent as a literal; like the interpreter, test its value
+            if b == 2:
+                return numpy.square(a)
             return abs(a) ** b
 
         return operator_pow_impl
